@@ -113,6 +113,7 @@ Definition pev_ok (tid : nat) (p p' : lpc) (S : lshared) (ev : list levent) : Pr
   | [ETimeout] => False
   | [EGoroutines _ _] => False
   | [EStopOver _] => False
+  | [EEmitOver _] => False
   | [_] => in_stop p' = in_stop p
   | _ => False
   end.
